@@ -45,7 +45,10 @@ def cases(tier, rng, dist):
         reps, n = rng.randint(1, 8), rng.randint(2, 3)
         t = gen_matrix(rng, reps + 1, n, rng.randint(0, 3))
         yield {"f": "sim", "table": [[str(v) for v in r] for r in t], "comb": rng.choice(COMBS[:5] + ["logit", "logit"]),
-               "pynum": rng.random() < 0.5, "in_place": rng.random() < 0.5}
+               "pynum": rng.random() < 0.5, "in_place": rng.random() < 0.5,
+               # how the user's randomizer delivers the new assignment: a fresh array bound to data.group (as randomize_group
+               # does) or the existing array overwritten in place (as randomize_in_strata does)
+               "rand_style": rng.choice(["rebind", "inplace", "inplace"])}
     # malformed shapes
     for spec in ("fisher", "tippett"):
         yield {"f": "npc", "distr": [["1", "2"], ["0", "1"]], "obs_row": None, "p": ["1/2"], "comb": spec, "plus1": True, "dtype": "float"}
@@ -66,7 +69,10 @@ def run_sim(c):
     state = {"k": 0}
     def rand(data):
         state["k"] += 1
-        data.group = np.array([state["k"]] * len(data.group), dtype=object)
+        if c.get("rand_style", "rebind") == "inplace" and isinstance(data.group, np.ndarray):
+            data.group[:] = state["k"]
+        else:
+            data.group = np.array([state["k"]] * len(data.group), dtype=object)
         return data
     def mk(j):
         def f(data):
@@ -109,15 +115,20 @@ def oracle(c, o):
         if e[0] == "exc":
             return None if (r[0] == "exc" and r[1] == "ValueError") else {"why": f"expected ValueError, got {r}", "cls": "sim_npc:guard"}
         if r[0] != "ok":
-            return {"why": f"sim_npc raised {r}", "cls": "sim_npc:raises"}
+            _v = emit({"why": f"sim_npc raised {r}", "cls": "sim_npc:raises"})
+            if _v: return _v
         if any(abs(Fraction(a) - b) > Fraction(1, 10**10) for a, b in zip(r[2], ps)):
-            return {"why": f"partial p-values {r[2]} expected {[float(x) for x in ps]}", "cls": "sim_npc:partial-p"}
+            _v = emit({"why": f"partial p-values {r[2]} expected {[float(x) for x in ps]}", "cls": "sim_npc:partial-p"})
+            if _v: return _v
         if r[1] < 1.0 / (reps + 1) - 1e-12:
-            return {"why": f"global p {r[1]} below 1/(reps+1): the observed row does not count itself", "cls": "sim_npc:observed-row-not-counted"}
+            _v = emit({"why": f"global p {r[1]} below 1/(reps+1): the observed row does not count itself", "cls": "sim_npc:observed-row-not-counted"})
+            if _v: return _v
         if not e[2] and abs(Fraction(r[1]) - e[1]) > Fraction(1, 10**10):
-            return {"why": f"global p {r[1]} but #rows with combined statistic >= observed / #rows = {e[1]}", "cls": "sim_npc:rank-pvalue"}
+            _v = emit({"why": f"global p {r[1]} but #rows with combined statistic >= observed / #rows = {e[1]}", "cls": "sim_npc:rank-pvalue"})
+            if _v: return _v
         if not c["in_place"] and o["group_after"] != [0, 0, 0]:
-            return {"why": "in_place=False changed the caller's group", "cls": "sim_npc:in-place"}
+            _v = emit({"why": "in_place=False changed the caller's group", "cls": "sim_npc:in-place"})
+            if _v: return _v
         return None
     m, p = pvals_of(c)
     e = exact_npc(p, m, c["comb"], c["plus1"])
@@ -125,16 +136,21 @@ def oracle(c, o):
     if e[0] == "exc":
         return None if (r[0] == "exc" and r[1] == "ValueError") else {"why": f"expected ValueError for bad shapes / invalid combiner, got {r}", "cls": "npc:guard"}
     if r[0] != "ok":
-        return {"why": f"npc raised {r}", "cls": "npc:raises"}
+        _v = emit({"why": f"npc raised {r}", "cls": "npc:raises"})
+        if _v: return _v
     if not o["unmodified"]:
-        return {"why": "npc modified its arguments", "cls": "npc:input-modified"}
+        _v = emit({"why": "npc modified its arguments", "cls": "npc:input-modified"})
+        if _v: return _v
     B = len(m); cc = 1 if c["plus1"] else 0
     if not (cc / (B + cc) - 1e-12 <= r[1] <= 1 + 1e-12):
-        return {"why": f"npc={r[1]} outside [c/(B+c),1]", "cls": "npc:range"}
+        _v = emit({"why": f"npc={r[1]} outside [c/(B+c),1]", "cls": "npc:range"})
+        if _v: return _v
     if c["obs_row"] is not None and not c["plus1"] and r[1] < 1.0 / B - 1e-12:
-        return {"why": f"observed row is row {c['obs_row']} of distr but global p={r[1]} < 1/B: it does not count itself", "cls": "npc:observed-row-not-counted"}
+        _v = emit({"why": f"observed row is row {c['obs_row']} of distr but global p={r[1]} < 1/B: it does not count itself", "cls": "npc:observed-row-not-counted"})
+        if _v: return _v
     if not e[2] and abs(Fraction(r[1]) - e[1]) > Fraction(1, 10**10):
-        return {"why": f"npc={r[1]} but exact rank p-value is {e[1]}", "cls": "npc:rank-pvalue"}
+        _v = emit({"why": f"npc={r[1]} but exact rank p-value is {e[1]}", "cls": "npc:rank-pvalue"})
+        if _v: return _v
     return None
 
 
